@@ -67,6 +67,26 @@ def handle (op : String) (a : Json) : Except String Json := do
     let v := judgeObs o
     return Json.mkObj [("all", boolJ v.all), ("range", boolJ v.range), ("symm", boolJ v.symm),
       ("self", boolJ v.self), ("disjoint", boolJ v.disjoint)]
+  | "affinity64" =>
+    -- the whole computation in binary64 (`affinityR rnd64`) on the measured GEOS values: both argument orders
+    let g1 ← getGeom (← fld a "g1")
+    let g2 ← getGeom (← fld a "g2")
+    let tb ← fldRat a "tb"
+    let fb ← fldRat a "fb"
+    let O ← getObserved a
+    let G := observedGeos O (fun g => if g == g1 then 0 else 1) true
+    match affinity64 G g1 g2 tb fb, affinity64 G g2 g1 tb fb with
+    | .ok x, .ok y => return valJ (ratsJ [x, y])
+    | .error e, _ => return raiseJ e
+    | _, .error e => return raiseJ e
+  | "rnd64" =>
+    return valJ (ratJ (rnd64 (← fldRat a "x")))
+  | "bounds" =>
+    -- `compute_bounds` / `geometry_to_shapely(g).bounds` in closed form (contract `BoundsExact`)
+    let g ← getGeom (← fld a "g")
+    match g.bounds with
+    | some b => return valJ (boundsJ b)
+    | none => return Json.mkObj [("raise", Json.str "empty")]
   | "iou" =>
     return valJ (ratJ (iouC (← fldRat a "a") (← fldRat a "b") (← fldRat a "i")))
   | "time_iou" =>
